@@ -45,6 +45,8 @@ var killTargets = []killTarget{
 		func(g *genctx) string { return "this." + g.n("a") + "[args.s[0]] = 1" }},
 	{"io-length", func(g *genctx) string { return "args.src.length() >= 4" }, nil, func(g *genctx) string { return "" }, "",
 		func(g *genctx) string { return "this." + g.n("g") + " = args.src.peek_u32le()" }},
+	{"io-length-eq", func(g *genctx) string { return "args.src.length() == 8" }, nil, func(g *genctx) string { return "" }, "",
+		func(g *genctx) string { return "this." + g.n("g") + " = (args.src.length() & 0xFFFF) as base.u32" }},
 	{"slice-length", func(g *genctx) string { return "s2.length() >= 4" }, nil, func(g *genctx) string { return "" }, "",
 		func(g *genctx) string { return "t = s2[3]" }},
 }
@@ -113,6 +115,30 @@ var killers = []killer{
 		}
 		return ""
 	}},
+	{"sibling-compound-store", false, func(g *genctx, t *killTarget, ind string) string {
+		switch t.name {
+		case "array-elem":
+			return ind + "this." + g.n("b") + "[args.n & 1] ~mod+= ((args.v & 0xFF) as base.u8)\n"
+		case "slice-elem":
+			return ind + "if (args.n as base.u64) < args.s.length() {\n" + ind + "    args.s[args.n as base.u64] ~mod+= ((args.v & 0xFF) as base.u8)\n" + ind + "}\n"
+		}
+		return ""
+	}},
+	{"alias-compound-store", false, func(g *genctx, t *killTarget, ind string) string {
+		switch t.name {
+		case "array-elem":
+			return ind + "s3 = this." + g.n("b") + "[..]\n" + ind + "if s3.length() > 0 {\n" + ind + "    s3[0] |= ((args.v & 0xFF) as base.u8)\n" + ind + "}\n"
+		case "slice-elem":
+			return ind + "s3 = args.s\n" + ind + "if s3.length() > 0 {\n" + ind + "    s3[0] ~mod+= ((args.v & 0xFF) as base.u8)\n" + ind + "}\n"
+		}
+		return ""
+	}},
+	{"field-compound-via-call", false, func(g *genctx, t *killTarget, ind string) string {
+		if t.name == "field" {
+			return ind + "this." + g.n("f") + " ~mod+= args.v\n"
+		}
+		return ""
+	}},
 	{"partial-in-if", false, func(g *genctx, t *killTarget, ind string) string {
 		if t.name == "slice-length" {
 			return ind + "if args.c {\n" + ind + "    s2 = s2[1 ..]\n" + ind + "}\n"
@@ -122,14 +148,20 @@ var killers = []killer{
 		}
 		return ""
 	}},
+	{"io-advance-partial", false, func(g *genctx, t *killTarget, ind string) string {
+		if t.name == "io-length-eq" || t.name == "io-length" {
+			return ind + "args.src.skip_u32_fast!(actual: args.n & 3, worst_case: 4)\n"
+		}
+		return ""
+	}},
 	{"io-advance", false, func(g *genctx, t *killTarget, ind string) string {
-		if t.name == "io-length" {
+		if t.name == "io-length" || t.name == "io-length-eq" {
 			return ind + "args.src.skip_u32_fast!(actual: 2, worst_case: 2)\n"
 		}
 		return ""
 	}},
 	{"io-read-fast", false, func(g *genctx, t *killTarget, ind string) string {
-		if t.name == "io-length" {
+		if t.name == "io-length" || t.name == "io-length-eq" {
 			return ind + "this." + g.n("g") + " = args.src.peek_u8_as_u32()\n" + ind + "args.src.skip_u32_fast!(actual: 1, worst_case: 1)\n"
 		}
 		return ""
